@@ -404,12 +404,14 @@ class SparselyBin(Factory, Container):
         # >>> np.divide(q,1,q)
         # >>> np.floor(q,q)
         q = np.array(q, dtype=np.float64)
-        neginfs = np.isneginf(q)
-        posinfs = np.isposinf(q)
 
         np.subtract(q, self.origin, q)
         np.divide(q, self.binWidth, q)
         np.floor(q, q)
+        # saturate like bin() does: infinities and finite values whose index is beyond the 64-bit range
+        with np.errstate(invalid="ignore"):
+            neginfs = q <= LONG_MINUSINF
+            posinfs = q >= LONG_PLUSINF
         q = np.array(q, dtype=np.int64)
         q[neginfs] = LONG_MINUSINF
         q[posinfs] = LONG_PLUSINF
